@@ -119,6 +119,9 @@ def content(line, ui, lang):
             return "Text span %r covers %r (not letters)" % ([s, e], t)
         if k == "Symbol1" and not (t.upper() in ZONES or GMT_ZONE.fullmatch(t.upper()) or t.lower() in CURRENCY_WORDS):
             return "Symbol1 span %r covers %r, neither a zone nor a currency word" % ([s, e], t)
+        if k == "Symbol2" and any(ch in "0123456789 " for ch in t):
+            # the highlight of a unit word / literal suffix never swallows the number literal next to it
+            return "Symbol2 span %r covers %r (a digit or a blank: a number literal keeps its own Number span)" % ([s, e], t)
         if k == "DateTime" and (t[0] == " " or t[-1] == " "):
             return "DateTime span %r covers %r (begins or ends with a blank)" % ([s, e], t)
     return None
@@ -329,6 +332,16 @@ def generate(rng, tier):
              "kind": "scale", "k": str(bits(2.0)), "cur": ""}]
     for l in ["21 çift", "ğüş 21 çift + 1", "iki 4", "1 + iki 4 # öö", "İİ 21 çift"]:
         cases.append(mk(l, "en", "api-rule", pre=rule))
+    # a user-defined unit whose pattern has the unit word BEFORE the quantity (every built-in pattern ends with the unit):
+    # the number literal keeps its own Number highlight
+    fam = [{"op": "add_type", "name": "kat"},
+           {"op": "add_type_item", "name": "kat", "index": 1, "format": "Kat {value}", "parse": ["{TEXT:type:kat} {NUMBER:value}"],
+            "up": "{value}", "down": "{value}", "names": ["kat"]},
+           {"op": "add_type_item", "name": "kat", "index": 2, "format": "{value} blok", "parse": ["{TEXT:type:blok} no {NUMBER:value}",
+                                                                                                "{NUMBER:value} {TEXT:type:blok}"],
+            "up": "{value}", "down": "{value} * 10", "names": ["blok"]}]
+    for l in ["kat 5", "ğ kat 12 + 2 # çatı", "kat 7 to blok", "blok no 3", "3 blok", "1 + blok no 12 # ö", "kat 5 + kat 6"]:
+        cases.append(mk(l, "en", "api-unit-prefix", pre=fam))
     # >= 130 highlight tokens on a line; a variable use at index >= 128 (`index as i8`)
     cases.append(mk(long_line(rng, 66, "1"), "en", "long"))
     cases.append(mk("ğüş " + long_line(rng, 66, "1") + " # ööö", "en", "long"))
